@@ -57,14 +57,14 @@ class kll_helper {
     // assumes that destination has initialized objects
     // does not destroy the originals after the move
     template <typename T, typename C>
-    static void merge_sorted_arrays(T* buf, uint32_t start_a, uint32_t len_a, uint32_t start_b, uint32_t len_b, uint32_t start_c);
+    static void merge_sorted_arrays(T* buf, uint32_t start_a, uint32_t len_a, uint32_t start_b, uint32_t len_b, uint32_t start_c, const C& comparator);
 
     // this version is to merge from two different buffers into a third buffer
     // initializes objects is the destination buffer
     // moves objects from buf_a and destroys the originals
     // copies objects from buf_b
     template <typename T, typename C>
-    static void merge_sorted_arrays(const T* buf_a, uint32_t start_a, uint32_t len_a, const T* buf_b, uint32_t start_b, uint32_t len_b, T* buf_c, uint32_t start_c);
+    static void merge_sorted_arrays(const T* buf_a, uint32_t start_a, uint32_t len_a, const T* buf_b, uint32_t start_b, uint32_t len_b, T* buf_c, uint32_t start_c, const C& comparator);
 
     struct compress_result {
       uint8_t final_num_levels;
@@ -91,7 +91,7 @@ class kll_helper {
      */
     template <typename T, typename C>
     static compress_result general_compress(uint16_t k, uint8_t m, uint8_t num_levels_in, T* items,
-            uint32_t* in_levels, uint32_t* out_levels, bool is_level_zero_sorted);
+            uint32_t* in_levels, uint32_t* out_levels, bool is_level_zero_sorted, const C& comparator);
 
     template<typename T>
     static void copy_construct(const T* src, size_t src_first, size_t src_last, T* dst, size_t dst_first);
